@@ -11,6 +11,7 @@
    schedules one critical section at a time on the real reap.c (vlib/props/c10_reap.py). -/
 import NngModel.Proofs.ReapK
 import NngModel.Proofs.ReapTerm
+import NngModel.Proofs.ReapWF
 import NngModel.Model.ReapObs
 namespace Nng.C10Reap
 open Nng.Reap
@@ -238,6 +239,68 @@ theorem steps_bounded (nl : Nat) (progs : List (List Op)) (sched : List Tid) :
     effSteps (init nl progs) sched ≤ (progs.length + 1) + (progs.map (progPot progs.length)).sum := by
   have := effSteps_le progs.length (init nl progs) (by simp [init]) sched
   rw [initial_potential] at this
+  omega
+
+/-! ### (e) nothing the program names is dropped: at rest every named object has been finalised, exactly once -/
+
+/-- well-formed programs: every list index (of a call and of a reap function's nested call) names one of the `nl` lists -/
+def wfProgs (nl : Nat) (progs : List (List Op)) : Prop := ∀ p ∈ progs, ∀ op ∈ p, op.wf nl
+
+/-- at every moment, for every schedule: the objects handed to the reaper so far together with those still to be handed
+    over (remaining calls, children of queued / batched nodes, the nested call in progress) are exactly the named ones -/
+theorem nothing_named_is_dropped (nl : Nat) (progs : List (List Op)) (hw : wfProgs nl progs) (sched : List Tid) (x : Nat) :
+    List.count x (reach nl progs sched).subm + List.count x (future (reach nl progs sched)) =
+      List.count x (allIds progs) := by
+  have h := run_fc (wf_init nl progs hw) sched x
+  have h0 : fc (init nl progs) x = List.count x (allIds progs) := by
+    rw [← future_init nl progs x]
+    simp only [fc, parts, future, List.count_append, init, List.count_nil]; omega
+  rw [h0] at h
+  rw [← h]
+  simp only [fc, parts, future, List.count_append, reach]
+  omega
+
+/-- within the contract, when no thread can move: the finalised objects are exactly the named ones (as multisets) -/
+theorem all_named_finalised_at_rest (nl : Nat) (progs : List (List Op)) (hw : wfProgs nl progs) (sched : List Tid)
+    (hr : respects (init nl progs) sched = true) :
+    (∀ t, enabled (reach nl progs sched) t = false) → (reach nl progs sched).fin.Perm (allIds progs) := by
+  intro hst
+  obtain ⟨hc, hwk, hp, hperm⟩ := stuck_only_when_finished nl progs sched hr hst
+  refine hperm.symm.trans ?_
+  rw [List.perm_iff_count]
+  intro x
+  have h := nothing_named_is_dropped nl progs hw sched x
+  have hf : future (reach nl progs sched) = [] := by
+    have h1 : (reach nl progs sched).clients.flatMap clientFuture = [] := by
+      rw [List.flatMap_eq_nil_iff]; intro c hcm; rw [hc c hcm]; rfl
+    have hq : ∀ rl ∈ (reach nl progs sched).lists, rl.nodes = [] := by
+      intro rl hrl
+      have : nodeIds rl.nodes = [] := by
+        have hq0 : queuedIds (reach nl progs sched) = [] := by
+          have := hp; simp only [pendingIds, List.append_eq_nil_iff] at this; exact this.1
+        unfold queuedIds at hq0
+        rw [List.flatMap_eq_nil_iff] at hq0
+        exact hq0 rl hrl
+      simpa [nodeIds] using this
+    have h2 : (reach nl progs sched).lists.flatMap listFuture = [] := by
+      rw [List.flatMap_eq_nil_iff]; intro rl hrl; simp [listFuture, hq rl hrl, nodesFuture]
+    have h3 : (reach nl progs sched).worker.future = [] := by
+      rcases hwk with h | h <;> rw [h] <;> rfl
+    simp [future, h1, h2, h3]
+  rw [hf] at h
+  simpa using h
+
+/-- ... so with K1 every named object's reap function has run exactly once -/
+theorem each_named_finalised_exactly_once (nl : Nat) (progs : List (List Op)) (hw : wfProgs nl progs)
+    (hd : (allIds progs).Nodup) (sched : List Tid) (hr : respects (init nl progs) sched = true)
+    (hst : ∀ t, enabled (reach nl progs sched) t = false) :
+    ∀ x ∈ allIds progs, List.count x (reach nl progs sched).fin = 1 := by
+  intro x hx
+  have hp := all_named_finalised_at_rest nl progs hw sched hr hst
+  rw [List.perm_iff_count] at hp
+  rw [hp x]
+  have h1 := (List.nodup_iff_count.mp hd) x
+  have h2 := List.count_pos_iff.mpr hx
   omega
 
 /-! ### the judge of Model/ReapObs.lean accepts every contract-respecting run of the model -/
